@@ -36,7 +36,7 @@
 (* SwapBug / StaleBug / SliceBug = TRUE model the code before the fix:     *)
 (* commits (design findings reproduced on the real code, see docs/C11.md). *)
 (***************************************************************************)
-EXTENDS SparseVecContract, Json
+EXTENDS SparseMatrixView, Json
 
 CONSTANTS N0,        \* length of the initial vector
           MaxN,      \* largest length reachable through Append
@@ -47,6 +47,8 @@ CONSTANTS N0,        \* length of the initial vector
           Ops,       \* enabled operations
           WMax,      \* operand vectors of arithmetic have at most WMax non-zero entries
           Cols,      \* > 0: the vector is the row-major storage of a matrix with Cols columns (views: "vwalk")
+          ViewDepth, \* views are words of at most ViewDepth Slice / T steps (SparseMatrixView.tla)
+          ViewT,     \* ... with at most ViewT transpositions
           SwapBug, StaleBug, SliceBug
 
 Val == {-1, 0, 1}
@@ -354,27 +356,56 @@ WalkAll(o) ==
        /\ ok' = (wk.seq = CWalk(content[o]))
   /\ UNCHANGED <<cit, mit>>
   /\ Record([Ev("walk", o) EXCEPT !.r = CWalk(content[o])])
-(* a complete loop over an iterator of the matrix VIEW m.Slice(r0, r1, c0, c1), started with          *)
-(* IteratorFrom(fi, fj): the vector iterator starts at the storage key of the view's cell, every step  *)
-(* is a vector-iterator step (with skip()), entries outside the view's columns are passed over         *)
-(* (clip), the loop ends at the first entry below the view's last row.                                 *)
-RECURSIVE VWalk(_, _, _, _, _, _, _, _)
-VWalk(vs, ix, p, acc, r0, r1, c0, c1) ==
+(* the view denoted by a word, mechanism side: fold the steps over (storage map, index, header) *)
+RECURSIVE MechView(_, _, _, _, _)
+MechView(vs, ix, h, word, t) ==
+  IF t > Len(word) THEN [vals |-> vs, index |-> ix, h |-> h]
+  ELSE IF IsT(word[t]) THEN LET v2 == TKeys(vs, h) IN MechView(v2, DOMAIN v2, HT(h), word, t + 1)
+  ELSE MechView(vs, ix, HSlice(h, word[t]), word, t + 1)
+(* for it := view.ITERATOR() / ITERATOR_FROM(fi, fj); it.Ok(); it.Next(): vector-iterator steps with skip(), *)
+(* clip() passes over keys outside the view's columns, Ok() ends the loop below the view's last row         *)
+RECURSIVE VWalk(_, _, _, _, _)
+VWalk(vs, ix, h, p, acc) ==
   LET s == Skip(vs, ix, NoSnap, p) IN
-  IF s.pos = Done \/ (s.pos \div Cols) >= r1 THEN [vals |-> s.vals, index |-> s.index, seq |-> acc]
-  ELSE LET j == s.pos % Cols IN
-       VWalk(s.vals, s.index, MinGT(s.index, s.pos),
-             IF j >= c0 /\ j < c1 THEN Append(acc, <<(s.pos \div Cols) - r0, j - c0, s.vals[s.pos]>>) ELSE acc,
-             r0, r1, c0, c1)
-ViewWalk(o, r0, r1, c0, c1, fi, fj) ==
+  IF s.pos = Done \/ (s.pos \div h.cmax) - h.ro >= h.rows THEN [vals |-> s.vals, index |-> s.index, seq |-> acc]
+  ELSE LET j == (s.pos % h.cmax) - h.co IN
+       VWalk(s.vals, s.index, h, MinGT(s.index, s.pos),
+             IF j >= 0 /\ j < h.cols THEN Append(acc, <<(s.pos \div h.cmax) - h.ro, j, s.vals[s.pos]>>) ELSE acc)
+ViewWalk(o, word, fi, fj) ==
   /\ "vwalk" \in Ops /\ Cols > 0 /\ Alive(o) /\ n[o] > 0 /\ n[o] % Cols = 0
-  /\ r0 < r1 /\ r1 <= (n[o] \div Cols) /\ c0 < c1 /\ c1 <= Cols /\ fi < r1 - r0 /\ fj < c1 - c0
-  /\ LET wk == VWalk(vals[o], index[o], MinGE(index[o], (r0 + fi) * Cols + c0 + fj), <<>>, r0, r1, c0, c1)
-         exp == CViewWalk(content[o], Cols, r0, r1, c0, c1, fi, fj)
-     IN /\ ObsStep(o, wk.vals, wk.index, Prune(sh, o, DOMAIN wk.vals))
-        /\ ok' = (wk.seq = exp)
+  /\ LET rows == n[o] \div Cols
+         cv   == DenView(word, rows, Cols)
+         mv   == MechView(vals[o], index[o], WholeHdr(rows, Cols), word, 1)
+         k0   == IF fi < 0 THEN mv.h.ro * mv.h.cmax + mv.h.co ELSE HIndex(mv.h, fi, fj)
+         wk   == VWalk(mv.vals, mv.index, mv.h, MinGE(mv.index, k0), <<>>)
+         exp  == CViewIter(content[o], cv, fi, fj)
+         rds  == IF cv.vr * cv.vc <= 0 THEN <<>>
+                 ELSE [t \in 1..(cv.vr * cv.vc) |-> Rd(wk.vals, HIndex(mv.h, (t - 1) \div cv.vc, (t - 1) % cv.vc))]
+     IN /\ (fi >= 0 => fi < cv.vr /\ fj >= 0 /\ fj < cv.vc)
+        /\ (fi < 0 => fj = 0)
+        \* a view with a transposition is a re-keyed COPY of the storage: iterating it leaves the matrix alone
+        /\ IF HasT(word) THEN ObsStep(o, vals[o], index[o], sh)
+                         ELSE ObsStep(o, wk.vals, wk.index, Prune(sh, o, DOMAIN wk.vals))
+        /\ ok' = (wk.seq = exp /\ mv.h.rows = cv.vr /\ mv.h.cols = cv.vc /\ rds = CViewSeq(content[o], cv))
         /\ UNCHANGED <<cit, mit>>
-        /\ Record([Ev("vwalk", o) EXCEPT !.i = r0, !.k = r1, !.p = <<c0, c1, fi, fj>>, !.r = exp])
+        /\ Record([Ev("vwalk", o) EXCEPT !.i = cv.vr, !.k = cv.vc, !.w = FlatWord(word), !.p = <<fi, fj>>, !.r = exp,
+                                        !.d = CViewSeq(content[o], cv)])
+(* view.At(i, j).SetX(x) through a view made of slices only (header arithmetic; the storage is the matrix's own) *)
+ViewWrite(o, word, i, j, x) ==
+  /\ "vwrite" \in Ops /\ Cols > 0 /\ MaxObj = 1 /\ Alive(o) /\ n[o] > 0 /\ n[o] % Cols = 0 /\ ~HasT(word)
+  /\ LET rows == n[o] \div Cols
+         cv   == DenView(word, rows, Cols)
+         mv   == MechView(vals[o], index[o], WholeHdr(rows, Cols), word, 1)
+     IN /\ i < cv.vr /\ j < cv.vc
+        /\ LET kc == cv.map[<<i, j>>]           \* where the CONTRACT says the element lives
+               km == HIndex(mv.h, i, j)         \* where the header arithmetic puts it
+           IN /\ Rd(vals[o], km) # NilPtr
+              /\ n' = n /\ content' = [content EXCEPT ![o] = CWrite(content[o], kc, x)]
+              /\ UNCHANGED <<must, taint>>
+              /\ CommitM(o, Put(vals[o], km, x), IF Has(vals[o], km) THEN index[o] ELSE index[o] \cup {km}, sh)
+              /\ ok' = (kc = km)
+        /\ UNCHANGED <<cit, mit>>
+        /\ Record([Ev("vwrite", o) EXCEPT !.i = i, !.k = j, !.x = x, !.w = FlatWord(word)])
 
 (* w := a fresh zero vector of length m as vector 2 (it gets its own history before it is appended) *)
 New2(m) ==
@@ -435,8 +466,11 @@ Next ==
        \/ WalkAll(o)
        \/ (Alive(o) /\ \E w \in WSeqs(n[o]) : JointWalk(o, w))
   \/ \E j \in Iters : IterNext(j)
-  \/ (Cols > 0 /\ \E o \in Objs : \E r0, r1 \in 0..MaxN, c0, c1 \in 0..Cols, fi \in 0..(MaxN - 1), fj \in 0..(Cols - 1) :
-                                     ViewWalk(o, r0, r1, c0, c1, fi, fj))
+  \/ (Cols > 0 /\ \E o \in Objs : Alive(o) /\ n[o] > 0 /\
+        \E word \in Words(ViewDepth, ViewT, n[o] \div Cols, Cols) :
+           \/ ViewWalk(o, word, -1, 0)
+           \/ (Len(word) <= 1 /\ \E fi \in 0..(MaxN - 1), fj \in 0..(Cols - 1) : ViewWalk(o, word, fi, fj))
+           \/ (Len(word) >= 1 /\ \E i \in 0..(MaxN - 1), j \in 0..(MaxN - 1), x \in Val : ViewWrite(o, word, i, j, x)))
   \/ \E m \in 0..MaxN : New2(m)
   \/ AppendObj
   \/ \E a, b \in 0..MaxN : Slice1(a, b) \/ Slice2(a, b)
